@@ -258,6 +258,7 @@ func runMetaHistory(r *rand.Rand, nops int, allowBad, allowReadd bool, t *Trace)
 			var fs []comet.Filter
 			var gs []*comet.FilterGroup
 			mode := r.Intn(10)
+			var qb *comet.MetadataFilterQueryBuilder
 			switch {
 			case mode < 4:
 				n := r.Intn(5)
@@ -280,7 +281,12 @@ func runMetaHistory(r *rand.Rand, nops int, allowBad, allowReadd bool, t *Trace)
 				}
 				t.Stat("meta.search_groups")
 			default:
-				qb := comet.NewMetadataFilterQuery().Where(rndFilter(r))
+				qb = comet.NewMetadataFilterQuery()
+				if r.Intn(4) != 0 {
+					qb = qb.Where(rndFilter(r))
+				} else {
+					qb = qb.Where() // a query with no condition at all: every live document
+				}
 				if r.Intn(2) == 0 {
 					qb = qb.And(rndFilter(r))
 				}
@@ -291,6 +297,11 @@ func runMetaHistory(r *rand.Rand, nops int, allowBad, allowReadd bool, t *Trace)
 				t.Stat("meta.search_builder")
 			}
 			s := idx.NewSearch()
+			if len(gs) == 0 && len(fs) == 0 && r.Intn(2) == 0 {
+				// "no filters" said with empty lists that are not nil
+				s = s.WithFilterGroups(make([]*comet.FilterGroup, 0, 2)...).WithFilters([]comet.Filter{}...)
+				t.Stat("meta.search_empty_nonnil_lists")
+			}
 			if r.Intn(10) == 0 { // options SET their value: decoys first, then the real ones (or nothing)
 				s = s.WithFilters(comet.Eq("cat", "a")).WithFilterGroups(&comet.FilterGroup{Logic: comet.OR, Filters: []comet.Filter{comet.Exists("n")}})
 				s = s.WithFilters().WithFilterGroups()
@@ -303,6 +314,10 @@ func runMetaHistory(r *rand.Rand, nops int, allowBad, allowReadd bool, t *Trace)
 				s = s.WithFilters(fs...)
 			}
 			res, err := s.Execute()
+			if qb != nil && r.Intn(2) == 0 {
+				res, err = qb.Execute(idx) // the query builder's own entry point
+				t.Stat("meta.search_builder_execute")
+			}
 			ops = append(ops, func(c *Case) {
 				c.N(4).N(len(fs))
 				for _, f := range fs {
